@@ -28,7 +28,10 @@ func init() {
 			// what actually arrives at real sockets (count and bytes): the workload of C06's loopback and network-namespace layers
 			keys := []string{":count", "request-bytes", "panic"}
 			b = append(b, same(n(tier, 1, 3), Batch{Mode: "loopback", RunAs: "C06", Keys: keys, Timeout: 30 * time.Minute, Procs: 8})...)
-			return append(b, same(n(tier, 1, 2), Batch{Mode: "netns", RunAs: "C06", Keys: keys, Netns: true, Timeout: 30 * time.Minute, Procs: 4})...)
+			b = append(b, same(n(tier, 1, 2), Batch{Mode: "netns", RunAs: "C06", Keys: keys, Netns: true, Timeout: 30 * time.Minute, Procs: 4})...)
+			// "never of earlier calls on the same or another client": an earlier call that failed to open its socket must not keep later
+			// calls from sending their request (port-queue phase of C09's workload)
+			return append(b, Batch{Mode: "port-queue", RunAs: "C09", Keys: []string{"hang", "failed-without-asking", "panic"}, Timeout: 20 * time.Minute, Procs: 8})
 		}}
 }
 
@@ -157,7 +160,10 @@ func init() {
 			b = append(b, same(n(tier, 2, 6), Batch{Mode: "loopback", Timeout: 20 * time.Minute, Procs: 8})...)
 			// "the content of any other datagram never appears in a returned result": results retained across later calls and
 			// listener bursts on the real transport (the workload of C17's loopback layer)
-			return append(b, same(n(tier, 1, 2), Batch{Mode: "loopback", RunAs: "C17", Keys: []string{"result-aliases-buffer", "event-from-another-datagram", "event-changes-after-delivery", "panic"}, Timeout: 20 * time.Minute, Procs: 4})...)
+			b = append(b, same(n(tier, 1, 2), Batch{Mode: "loopback", RunAs: "C17", Keys: []string{"result-aliases-buffer", "event-from-another-datagram", "event-changes-after-delivery", "panic"}, Timeout: 20 * time.Minute, Procs: 4})...)
+			// "datagrams of the wrong length or with another serial number are ignored and the call keeps waiting for S until its deadline":
+			// a flood of such datagrams must not move the deadline (the flood phases of C09's workload)
+			return append(b, Batch{Mode: "flood", RunAs: "C09", Keys: []string{"late-return", "hang", "unexpected-success", "panic"}, Timeout: 20 * time.Minute, Procs: 8})
 		}}
 }
 
